@@ -33,10 +33,26 @@ def _modules():
     return mods
 
 
+# Tables that could not be translated from the current source in this process:
+# [(name, reason)].  Check.finish() turns each into "the theorems stated over this table
+# are no longer checked against the code" (a VIOLATION ... no-failing-input-found unless
+# the correspondence run, which then proceeds on the BASELINE table, finds a failing input).
+FAILURES = []
+BASELINE = os.path.join(os.path.dirname(os.path.abspath(__file__)), "baseline_tables")
+
+
 def generate(name):
     for m in _modules():
         if m.NAME == name:
-            text = m.gen()
+            try:
+                text = m.gen()
+            except (SystemExit, Exception) as e:  # noqa  (fail-closed translator)
+                base = os.path.join(BASELINE, name + ".v")
+                if not os.path.exists(base):
+                    raise
+                FAILURES.append((name, str(e) or repr(e)))
+                with open(base) as f:
+                    text = f.read()
             common.write_if_changed(os.path.join(common.COQ, "Gen", name + ".v"), text)
             return text
     raise KeyError(name)
@@ -47,5 +63,17 @@ def generate_all():
         generate(m.NAME)
 
 
+def write_baseline():
+    """Snapshot of the tables of the unchanged tree (committed): what the correspondence run
+    falls back to when the translator refuses the current source."""
+    os.makedirs(BASELINE, exist_ok=True)
+    for m in _modules():
+        with open(os.path.join(BASELINE, m.NAME + ".v"), "w") as f:
+            f.write(m.gen())
+
+
 if __name__ == "__main__":
-    generate_all()
+    if "--baseline" in sys.argv:
+        write_baseline()
+    else:
+        generate_all()
